@@ -180,10 +180,23 @@ package originium
 //@   invariant (e == nil || inList(e, db.immutables)) && missMem(db.memtable, key)
 //@   invariant forall(Int(p), (ipos(e) < p && p < nImm(db)) ==> missMem(immAt(db, p), key), trig(ListAt[ref(db.immutables)][p]))
 //
+//@ ghost RsNew Int
 //@ func (*originium.DB).rawset
 //@ props C01 C06 C08
 //@ trusted engine layer below the transaction interface: memtable set, rotation and flush (C01 obligations; see DESIGN)
 //@ requires wf(entry.Key)
+// body glue (checked on the body, thin): the entry is set in the active memtable read under db.mu;
+// on rotation that same memtable is frozen, pushed at the BACK of the immutable list (lookups walk
+// it from the back: newest first), replaced by its own reset() and then sent to the flusher.
+//@ body_ensures true
+//@ thin ^assert
+//@ before_call (*originium.memtable).set#0: assert arg0 == mt && arg1 == entry
+//@ before_call (*originium.memtable).size#0: assert arg0 == mt
+//@ before_call (*originium.memtable).freeze#0: assert arg0 == mt
+//@ before_call (*list.List).PushBack#0: assert arg0 == db.immutables && unbox(*originium.memtable, arg1) == mt
+//@ before_call (*originium.memtable).reset#0: assert arg0 == mt
+//@ after_call (*originium.memtable).reset#0: ghost RsNew = ref(result)
+//@ after_call send#0: assert sent == mt && ref(db.memtable) == RsNew
 //@ assigns everything_except originium.Txn originium.oracle originium.DB.oracle originium.DB.logger ]types.Entry map[uint64]struct A|uint64 A|originium.committedTxn X|Hist X|HistLen X|Wm X|StoreReads G|
 //@ ensures ViewHas == store(old(ViewHas), entry.Key, true) && ViewEnt == store(old(ViewEnt), entry.Key, entry)
 //
@@ -592,17 +605,46 @@ package originium
 // after the record is appended to the wal and the wal is fsynced; memtable.recover deletes an old wal
 // only after every entry read from it has been appended to the new wal and fsynced. Thin contracts:
 // only these ordering clauses and the preconditions of the os / wal calls are claimed.
+//@ ghost GlArr Int
+//@ ghost GlOff Int
+//@ ghost GlLen Int
+//@ ghost GlBf Int
+//@ ghost GlIdx T(table.Index)
+//@ ghost GlBytesArr Int
+//@ ghost GlBytesOff Int
+//@ ghost GlBytesLen Int
+//@ ghost GlMaxIdx Int
+//@ ghost GlName Str
+//@ ghost GlRemoved Bool
 //@ ghost FlushOut Str
 //@ ghost FlushBytes Str
 //@ ghost RecN Int
 //@ func (*originium.levelManager).flushToL0 -> err
-//@ props C14 C03
-//@ thin ^post|^frame|^pre\.os\.|^pre\..*os\.File
+//@ props C14 C03 C01
+//@ thin ^post|^frame|^assert|^pre\.os\.|^pre\..*os\.File
 //@ assigns everything_except wal.WAL originium.memtable.
 //@ ensures forall(Int(x), x < old(alloc) ==> (FdOpen[x] == old(FdOpen)[x] && FdPath[x] == old(FdPath)[x]), trig(FdOpen[x]), trig(FdPath[x]))
 //@ ensures err == nil ==> (DskEx[FlushOut] && DskSync[FlushOut] == len(DskData[FlushOut]) && DskData[FlushOut] == FlushBytes)
 //@ before_call (*os.File).Write#0: ghost FlushBytes = string(tableBytes)
 //@ after_call os.OpenFile#0: ghost FlushOut = FdPath[ref(result0)]
+// glue (C01 write path, dataflow only): the filter and the table are built from the list handed in,
+// for level 0; the handle installed at the back of level 0 carries that index, that filter and the
+// number maxLevelIdx(0)+1; the file has level 0 and that number in its name and receives the bytes
+// Build returned.
+//@ before_call filter.Build#0: assert arrid(arg0) == arrid(kvs) && offof(arg0) == offof(kvs) && len(arg0) == len(kvs)
+//@ before_call table.Build#0: assert arrid(arg0) == arrid(kvs) && offof(arg0) == offof(kvs) && len(arg0) == len(kvs) && arg2 == 0
+//@ after_call filter.Build#0: ghost GlBf = ref(result)
+//@ after_call table.Build#0: ghost GlIdx = result0
+//@ after_call table.Build#0: ghost GlBytesArr = arrid(result1)
+//@ after_call table.Build#0: ghost GlBytesOff = offof(result1)
+//@ after_call table.Build#0: ghost GlBytesLen = len(result1)
+//@ before_call (*originium.levelManager).maxLevelIdx#0: assert arg1 == 0
+//@ after_call (*originium.levelManager).maxLevelIdx#0: ghost GlMaxIdx = result
+//@ before_call (*list.List).PushBack#0: assert arg0 == lm.levels[0] && unbox(tableHandle, arg1).levelIdx == GlMaxIdx + 1 && unbox(tableHandle, arg1).dataBlockIndex == GlIdx && ref(bf) == GlBf
+//@ before_call (*originium.levelManager).fileName#0: assert arg1 == 0 && arg2 == GlMaxIdx + 1
+//@ after_call (*originium.levelManager).fileName#0: ghost GlName = result
+//@ before_call os.OpenFile#0: assert arg0 == GlName
+//@ before_call (*os.File).Write#0: assert arrid(arg1) == GlBytesArr && offof(arg1) == GlBytesOff && len(arg1) == GlBytesLen
 //
 // (C02/C03: what is flushed) the list handed to flushToL0 is the very slice memtable.all returned
 // for this memtable - not a filtered or re-sliced copy - and the wal removed is this memtable's.
@@ -623,11 +665,21 @@ package originium
 //@ before_call (*wal.WAL).Delete#0: assert arg0 == imt.wal
 //@ before_call (*wal.WAL).Delete#0: assert DskEx[FlushOut] && DskSync[FlushOut] == len(DskData[FlushOut]) && DskData[FlushOut] == FlushBytes
 //
+//@ ghost MaArr Int
+//@ ghost MaOff Int
+//@ ghost MaLen Int
+// (C01 write path) what is flushed: all returns the very slice skiplist.All returned for the
+// memtable's own skiplist (which C17 proves to be exactly the members, each once, in order).
 //@ func (*originium.memtable).all -> r
-//@ props C14 C03
+//@ props C14 C03 C01
 //@ requires mt != nil
-//@ thin ^frame
-//@ assigns SLSrc, SLIdx
+//@ thin ^frame|^assert
+//@ assigns SLSrc, SLIdx, MaArr, MaOff, MaLen
+//@ before_call (*skiplist.SkipList).All#0: assert arg0 == mt.skiplist
+//@ after_call (*skiplist.SkipList).All#0: ghost MaArr = arrid(result)
+//@ after_call (*skiplist.SkipList).All#0: ghost MaOff = offof(result)
+//@ after_call (*skiplist.SkipList).All#0: ghost MaLen = len(result)
+//@ at_exit exit: assert arrid(r) == MaArr && offof(r) == MaOff && len(r) == MaLen
 //
 //@ func (*originium.memtable).set
 //@ props C14 C03 C04 C01
@@ -682,16 +734,6 @@ package originium
 // selected (overlapL0/overlapLN/boundary) is not under contract.
 //@ ghost CompOut Str
 //@ ghost CompCreated Bool
-//@ ghost GlArr Int
-//@ ghost GlOff Int
-//@ ghost GlLen Int
-//@ ghost GlBf Int
-//@ ghost GlIdx T(table.Index)
-//@ ghost GlBytesArr Int
-//@ ghost GlBytesOff Int
-//@ ghost GlBytesLen Int
-//@ ghost GlMaxIdx Int
-//@ ghost GlName Str
 //@ define outDurable(bytes) = CompCreated && DskSync[CompOut] == len(DskData[CompOut]) && DskData[CompOut] == string(bytes) && len(bytes) == len(DskData[CompOut])
 //@ func (*originium.levelManager).compactL0
 //@ props C12 C14 C03 C09
@@ -719,6 +761,10 @@ package originium
 //@ after_call table.Build#0: ghost GlBytesArr = arrid(result1)
 //@ after_call table.Build#0: ghost GlBytesOff = offof(result1)
 //@ after_call table.Build#0: ghost GlBytesLen = len(result1)
+//@ after_call (*originium.levelManager).overlapLN#0: ghost GlRemoved = false
+//@ after_call (*list.List).Remove#0: ghost GlRemoved = true
+//@ after_call (*list.List).Remove#1: ghost GlRemoved = true
+//@ before_call (*originium.levelManager).maxLevelIdx#0: assert !GlRemoved
 //@ before_call (*originium.levelManager).maxLevelIdx#0: assert arg1 == 1
 //@ after_call (*originium.levelManager).maxLevelIdx#0: ghost GlMaxIdx = result
 //@ before_call (*list.List).PushBack#0: assert arg0 == lm.levels[1] && unbox(tableHandle, arg1).levelIdx == GlMaxIdx + 1 && unbox(tableHandle, arg1).dataBlockIndex == GlIdx && ref(bf) == GlBf
@@ -764,6 +810,10 @@ package originium
 //@ after_call table.Build#0: ghost GlBytesArr = arrid(result1)
 //@ after_call table.Build#0: ghost GlBytesOff = offof(result1)
 //@ after_call table.Build#0: ghost GlBytesLen = len(result1)
+//@ after_call (*originium.levelManager).overlapLN#0: ghost GlRemoved = false
+//@ after_call (*list.List).Remove#0: ghost GlRemoved = true
+//@ after_call (*list.List).Remove#1: ghost GlRemoved = true
+//@ before_call (*originium.levelManager).maxLevelIdx#0: assert !GlRemoved
 //@ before_call (*originium.levelManager).maxLevelIdx#0: assert arg1 == n + 1
 //@ after_call (*originium.levelManager).maxLevelIdx#0: ghost GlMaxIdx = result
 //@ before_call (*list.List).PushBack#0: assert arg0 == lm.levels[n + 1] && unbox(tableHandle, arg1).levelIdx == GlMaxIdx + 1 && unbox(tableHandle, arg1).dataBlockIndex == GlIdx && ref(bf) == GlBf
